@@ -22,8 +22,11 @@ ASSUMPTIONS = [
     "fjall 3.0.1's Database drop occasionally never returns (upstream shutdown race: Close messages sent into a "
     "bounded channel nobody reads); the harness closes databases in a helper thread with a 20 s limit and abandons "
     "the rest of such a case (counted in input_distribution.backend_close_hung_case_abandoned_*)",
-    "Fjall: composite keys longer than 65535 bytes are refused by a backend assertion (panic) on every call that "
-    "touches them; the model reproduces exactly that outcome, the oracle accepts it as the documented limit",
+    "Fjall: composite keys longer than 65535 bytes are outside the refinement theorem (CmdOk). The model mirrors what "
+    "the code does with them: every batch write and every scan panics (backend length assertion), a point read "
+    "panics too, except that it answers none while the session's visible sequence number is still 0 (database "
+    "reopened with nothing ever committed and no keyspace created since: the snapshot read short-cuts); the oracle "
+    "accepts these outcomes as the documented key limit",
 ]
 TRUSTED_EXTRA = [
     "modelled, not verified: RocksDB and Fjall themselves (LSM trees, memtables, prefix extractor + bloom filters, "
